@@ -13,9 +13,9 @@ PID = 'C02'
 def plan(tier):
     if tier == 'quick':
         return [('client', 5), ('server', 4), ('server_gaps_tagged', 3), ('late_registry', 5), ('late_registry_server', 3),
-                ('client_micro_times', 4), ('client_decorated', 3), ('client_top_server_ids', 3)], (30, 80)
+                ('client_micro_times', 4), ('client_decorated', 3), ('client_top_server_ids', 3)], (520, 80)
     return [('client', 8), ('server', 7), ('client_equal_times', 6), ('server_gaps_tagged', 6), ('late_registry', 8),
-            ('late_registry_server', 6), ('client_micro_times', 7), ('client_decorated', 5), ('client_top_server_ids', 5)], (60, 800)
+            ('late_registry_server', 6), ('client_micro_times', 7), ('client_decorated', 5), ('client_top_server_ids', 5)], (1100, 800)
 
 
 def run(run, tier, seed, kinds=KINDS, pid=PID):
